@@ -334,6 +334,37 @@ class OnionWorld:
                 t.inject(self.payload(p), ("1.2.3.4", 5000))
         return self.log("ExitReturn", x=x, cid=spec_cid, p=p)
 
+    def vanish(self, n):
+        """the node's endpoint closes for good: it neither sends nor receives any more (abandoned circuits)"""
+        self.nodes[n].sim_endpoint.close()
+        return self.log("Vanish", n=n)
+
+    def node_remove_relay(self, n, spec_cid):
+        self.loop.call(self.ov[n].remove_relay, self.real_cid(spec_cid), "driver", False, 1)
+        return self.log("NodeRemoveRelay", n=n, cid=spec_cid)
+
+    def node_remove_exit(self, n, spec_cid):
+        self.loop.call(self.ov[n].remove_exit_socket, self.real_cid(spec_cid), "driver", False, 1)
+        return self.log("NodeRemoveExit", n=n, cid=spec_cid)
+
+    def expect_quiet(self):
+        return self.log("ExpectQuiet")
+
+    def run_until(self, t_ms, deliver=True, max_events=100000):
+        """fire every timer up to virtual time t_ms (delivering whatever gets sent, FIFO)"""
+        n = 0
+        while n < max_events:
+            if deliver:
+                while self.net.inflight:
+                    self.deliver(self.net.inflight[0].seq)
+                    n += 1
+            ts = self.loop.timers()
+            if not ts or int(round((ts[0]._when - self.t0) * MS)) > t_ms:
+                break
+            self.fire_next_timer()
+            n += 1
+        return n
+
     # -- network steps
     def deliver(self, seq):
         i = self.find(seq)
@@ -396,6 +427,32 @@ class OnionWorld:
             except Exception as exc:  # noqa: BLE001
                 self.escaped.append({"seq": seq, "exc": type(exc).__name__, "site": "header-tamper", "msg": str(exc)[:200]})
         return self.log("TamperHeader", id=seq, what=what)
+
+    def tamper_at(self, seq, pos, bit):
+        """flip one bit at an absolute byte position of an in-flight cell; logged as the spec action it amounts to"""
+        import struct
+        d = self.net.inflight[self.find(seq)]
+        b = bytearray(d.data)
+        if pos >= 29:
+            return self.tamper(seq, pos=pos, bit=bit)
+        old = bytes(b)
+        b[pos] ^= 1 << bit
+        d.data = bytes(b)
+        if pos < 23:
+            try:
+                self.loop.call(self.net.deliver_next, self.find(seq))
+            except Exception as exc:  # noqa: BLE001
+                self.escaped.append({"seq": seq, "exc": type(exc).__name__, "site": "header-tamper", "msg": str(exc)[:200]})
+            return self.log("TamperHeader", id=seq, what="drop", pos=pos)
+        if pos < 27:
+            new = struct.unpack_from("!I", b, 23)[0]
+            if new in self.cid_map:
+                return self.log("Splice", id=seq, cid=self.cid_map[new], pos=pos)
+            return self.log("TamperHeader", id=seq, what="cid", pos=pos)
+        what = "plain" if pos == 27 else "early"
+        if (old[pos] != 0) == (b[pos] != 0):
+            what = "same"
+        return self.log("TamperHeader", id=seq, what=what, pos=pos)
 
     def splice(self, seq, spec_cid):
         import struct
